@@ -33,7 +33,7 @@ def nontrivial(b):
 def run(ctx):
     q = ctx.quick
     U.exhaustive(ctx, ["MC_UdpNatC03.cfg", "MC_UdpNatSync.cfg"] if q else ["MC_UdpNatC03T.cfg", "MC_UdpNatSync.cfg", "MC_UdpNatLong.cfg"], "C03")
-    fams = U.real_families(ctx, "c03", 70 if q else 450, 45 if q else 300, U.PROPS["C03"], want={"salt"})
+    fams = U.real_families(ctx, "c03", 70 if q else 450, 45 if q else 300, U.PROPS["C03"], want={"salt"}, n_focus=0 if q else 40)
     for fam, behs, trace, sums in fams:
         ctx.cov["evaluations"] += len(behs)
         ctx.cov["distinct_nontrivial"] += U.count(behs, nontrivial)
